@@ -94,6 +94,16 @@ CLAIMS['C15'] = dict(
          'induction step from the lemma. cells_inside_polygon = C07 cell2coord composed with this.',
     technique=TECH_A, engine='llir', ref='DESIGN.md section 3, C15')
 
+CLAIMS['C16'] = dict(
+    text='c_cell2coord -> c_intersect composed as Catchment.intersect does, with symbolic distinct catchment cells and symbolic origins of both grids: z3 '
+         'shows on every feasible path that each catchment cell whose centre falls inside the coarse grid contributes to exactly one coarse cell, that '
+         'every coarse cell is listed at most once with weight = count x area ratio, and that weights x coarse area equal the catchment area inside. '
+         'c_voronoi with symbolic points: weights are non-negative, sum to 1 and equal the fraction of cells whose nearest point (ties to the lowest '
+         'index) is that point.',
+    note='Bounds: fine grid 2x2 (thorough 3x3), coarse grid <= 2x2, ratios 1-2 (thorough 1-4), 1-2 catchment cells (thorough 3); voronoi 1-3 cells, 1-2 '
+         'points (thorough 3). sqrt modelled by order-only facts. The numpy scatter into area_grid is outside. Exact reals.',
+    technique=TECH_A, engine='llir', ref='DESIGN.md section 3, C16')
+
 PENDING = 'check not built yet in this session (planned, see DESIGN.md section 3)'
 NOT_APPLICABLE = {
     'C13': 'persistence is carried by numpy tofile/fromfile, dtype objects, zipfile and float repr: no arithmetic core a solver can be given; '
